@@ -29,6 +29,11 @@ def evaluate(node: ast.AST, env: dict, fold=None):
     """env: name/dotted text -> int|bool.  fold(node) may return a constant for names the env does not know (module constants)."""
     if isinstance(node, ast.Constant) and isinstance(node.value, (int, bool)):
         return node.value
+    if isinstance(node, ast.Call):
+        key = ast.unparse(node)
+        if key in env:
+            return env[key]
+        raise Unsupported(f"call `{key[:40]}` (not bound by the caller)")
     if isinstance(node, (ast.Name, ast.Attribute)):
         key = ast.unparse(node)
         if key in env:
